@@ -405,8 +405,12 @@ def as_cond(c):
     """A term in condition position: a bare length is the test len(x) != 0 (through and / or / not)."""
     if _is_len(c):
         return cmp('!=', c, C(0))
+    if c[0] == 'call' and c[1][0] == 'g' and isinstance(c[1][1], str) and c[1][1].startswith(('$new_', '$obj')):
+        return cmp('!=', call(G('len'), (c,)), C(0))       # a list / dict object is true iff it is non-empty
     if c[0] in ('and', 'or') and any(_is_len(x) or x[0] in ('and', 'or', 'not') for x in c[1]):
         return nary(c[0], tuple(as_cond(x) for x in c[1]))
+    if c[0] == 'not' and c[1][0] == 'call' and c[1][1][0] == 'g' and isinstance(c[1][1][1], str) and c[1][1][1].startswith(('$new_', '$obj')):
+        return not_(as_cond(c[1]))
     if c[0] == 'not' and (_is_len(c[1]) or c[1][0] in ('and', 'or')):
         return not_(as_cond(c[1]))
     return c
@@ -504,6 +508,11 @@ def call(f, args=(), kws=()):
     if f == ('g', 'isinstance') and nokw and len(args) == 2 and args[1][0] == 'tuple' and len(args[1][1]) >= 2 \
             and not any(e[0] == 'star' for e in args[1][1]):
         return nary('or', tuple(('call', f, (args[0], e), ()) for e in args[1][1]))
+    # range(0, n) is range(n); range(a, b, 1) is range(a, b)
+    if f == ('g', 'range') and nokw and len(args) == 3 and args[2] == C(1):
+        args = args[:2]
+    if f == ('g', 'range') and nokw and len(args) == 2 and args[0] == C(0):
+        args = args[1:]
     # floor / ceil of a true division
     if f in _FLOOR and nokw and len(args) == 1 and args[0][0] == 'div':
         return ('floordiv', args[0][1], args[0][2])
